@@ -1,13 +1,6 @@
 """C13 — PIL grammar: parsing inverts rendering, statement by statement."""
-import json
-from common import prove, ensure_model_runner, run_oracle, run_model, run_impl, Err
-from flow import conclude
-from pegcorr import run_both, shrink_text
+import pegprop
 import pil_texts as pt
-
-OP = "parse_pil"
-ORACLE = "c13.py"
-GEN = "gen_grammar"
 
 
 def build(ctx):
@@ -65,136 +58,29 @@ def build(ctx):
     return S
 
 
-def spec_failures(S, name, cases, impl):
-    """the direct statement of the property on the implementation's answers"""
-    out = []
-    for c, b in zip(cases, impl):
-        if name == "valid":
-            want = [pt.norm_tree(c["tree"])]
-            if pt.norm_result(b) != want:
-                out.append({"kind": "roundtrip", "text": c["text"], "tree": c["tree"], "expected": want, "observed": repr(b)})
-        elif name == "reject":
-            if not (isinstance(b, Err) and b.kind == "ParseException"):
-                out.append({"kind": "reject", "text": c["text"], "fault": c["fault"], "expected": "ParseException", "observed": repr(b)})
-    return out
+RULE = (
+    "token trees of all 7 statement kinds (every keyword alias, both assignment signs, optional parts, identifiers over "
+    "the full identifier alphabet incl. keyword-like and number-like names, integer/decimal/scientific numbers, nested "
+    "kernel patterns) x random layouts (runs of blanks/tabs, comments, blank lines, LF/CRLF, last line without newline); "
+    "documents of 1..20 statements; single-fault mutations (missing name / assignment sign, malformed number, unbalanced "
+    "kernel brackets) that must be rejected; character-level mutations. ROUND-TRIP GUARD: the renderer never produces a "
+    "text that an earlier ordered-choice alternative also accepts (keywords are followed by a blank, `sequence x = short|long` "
+    "is never used for a dl-domain, kernel complex names do not start with a statement keyword, adjacent names are "
+    "separated, the reaction arrow is preceded by a blank); such texts and name-less statements that read as a kernel "
+    "complex named like the keyword (`length = 5`) are run in the stream `ambiguous` for model/implementation agreement only. "
+    "non-trivial = distinct agreed token trees")
+
+CFG = {"op": "parse_pil", "oracle": "c13.py", "dialect": "pil", "fn": "parse_pil_string", "fn_file": "parse_pil_file",
+       "build": build, "norm_tree": pt.norm_tree, "rule": RULE, "kinds": pt.KINDS}
 
 
 def run(ctx):
-    rng, quick = ctx.rng, ctx.tier == "quick"
-    res = prove(ctx)
-    if ctx.gen.get(GEN):
-        res["ok"] = False
-        res["build"].excerpt = "translator failed (fail-closed): " + ctx.gen[GEN]
-    runner = ensure_model_runner()
-    diffs, spec = [], []
-    S = build(ctx)
-    if runner.ok:
-        for name in ("valid", "reject", "ambiguous", "mutated"):
-            d, m, i = run_both(ctx, name, [(OP, c["text"]) for c in S[name]])
-            diffs += d
-            spec += spec_failures(S, name, S[name], i)
-        # documents: the document and each of its statements
-        reqs, owner = [], []
-        for k, dc in enumerate(S["documents"]):
-            reqs.append((OP, dc["prologue"] + "".join(dc["texts"])))
-            owner.append((k, None))
-            for j, t in enumerate(dc["texts"]):
-                reqs.append((OP, t))
-                owner.append((k, j))
-        d, m, i = run_both(ctx, "documents", reqs)
-        diffs += d
-        parts = {}
-        for (k, j), b in zip(owner, i):
-            parts.setdefault(k, {})[j] = b
-        for k, dc in enumerate(S["documents"]):
-            ps = [parts[k][j] for j in range(len(dc["texts"]))]
-            want = [pt.norm_tree(t) for t in dc["trees"]]
-            got = pt.norm_result(parts[k][None])
-            cat = [pt.norm_tree(t) for p in ps if isinstance(p, list) for t in p]
-            if got != want or cat != want:
-                spec.append({"kind": "document", "prologue": dc["prologue"], "texts": dc["texts"],
-                             "text": dc["prologue"] + "".join(dc["texts"]), "expected": want, "observed": repr(parts[k][None])})
-    # files and parser histories need a file system / fresh processes: property oracle, always run
-    extra = []
-    for dc in S["documents"][: (40 if quick else 400)]:
-        extra.append({"kind": "file", "text": dc["prologue"] + "".join(dc["texts"])})
-    pool = [c["text"] for c in S["valid"][:200]] + [c["text"] for c in S["reject"][:100]]
-    for _ in range(8 if quick else 60):
-        before = [[rng.choice(["pil", "seesaw"]), rng.choice(pool + ["INPUT(1) = w[1,2]\n", "seesaw[", ""])]
-                  for _ in range(rng.randint(1, 6))]
-        extra.append({"kind": "history", "text": rng.choice(pool), "before": before})
-    out = run_oracle(ORACLE, {"cases": extra})
-    spec += out["failures"]
-    ctx.cov["oracle_checked"] = out["checked"]
-    ctx.cov["spec_checked_on_implementation"] = {"roundtrip": len(S["valid"]), "reject": len(S["reject"]),
-                                                 "document": len(S["documents"]), "failures": len(spec)}
-    ctx.cov["faults"] = {}
-    for c in S["reject"]:
-        ctx.cov["faults"][c["fault"]] = ctx.cov["faults"].get(c["fault"], 0) + 1
-    ctx.cov["kinds"] = {k: sum(1 for c in S["valid"] if c["kind"] == k) for k in pt.KINDS}
-    ctx.cov["rule"] = (
-        "token trees of all 7 statement kinds (every keyword alias, both assignment signs, optional parts, identifiers over "
-        "the full identifier alphabet incl. keyword-like and number-like names, integer/decimal/scientific numbers, nested "
-        "kernel patterns) x random layouts (runs of blanks/tabs, comments, blank lines, LF/CRLF, last line without newline); "
-        "documents of 1..20 statements; single-fault mutations (missing name / assignment sign, malformed number, unbalanced "
-        "kernel brackets) that must be rejected; character-level mutations. ROUND-TRIP GUARD: the renderer never produces a "
-        "text that an earlier ordered-choice alternative also accepts (keywords are followed by a blank, `sequence x = short|long` "
-        "is never used for a dl-domain, kernel complex names do not start with a statement keyword, adjacent names are "
-        "separated, the reaction arrow is preceded by a blank); such texts and name-less statements that read as a kernel "
-        "complex named like the keyword (`length = 5`) are run in the stream `ambiguous` for model/implementation agreement only. "
-        "non-trivial = distinct agreed token trees")
-    pseudo = [(0, ("spec:" + f["kind"], f.get("text", "")), f.get("expected"), f.get("observed")) for f in spec[:5]]
-
-    def search(_):
-        found = []
-        for f in spec[:10]:
-            found.append(witness(f))
-        # shrink real model/implementation disagreements and look at them with the oracle
-        cases = []
-        for d in diffs[:3]:
-            def bad(t):
-                a, b = run_model([(OP, t)], jobs=1)[0], run_impl([(OP, t)], jobs=1)[0]
-                return a != b
-            cases.append({"kind": "file", "text": shrink_text(d[1][1], bad, budget=80)})
-        cases += [{"kind": "roundtrip", "text": c["text"], "tree": c["tree"]} for c in S["valid"]]
-        cases += [{"kind": "reject", "text": c["text"], "fault": c["fault"]} for c in S["reject"]]
-        cases += [{"kind": "document", "prologue": c["prologue"], "texts": c["texts"]} for c in S["documents"]]
-        out = run_oracle(ORACLE, {"cases": cases})
-        for f in out["failures"][:10]:
-            found.append(witness(f))
-        return found
-
-    conclude(ctx, res, runner, diffs + pseudo, search)
+    CFG["partial"] = PARTIAL
+    pegprop.run(ctx, CFG)
 
 
-def snippet_for(f, fn="parse_pil_string", fn_file="parse_pil_file"):
-    k = f["kind"]
-    if k == "document":
-        return (f"from dsdobjects.dsdparser import {fn} as p; texts = {f['texts']!r}; "
-                f"print(p({f.get('prologue', '') !r} + ''.join(texts))); print([t for x in texts for t in p(x)])")
-    if k == "history":
-        return (f"import dsdobjects.dsdparser as dp; [dp.__dict__['parse_%s_string' % d] for d, t in {f['before']!r}]; "
-                f"print(dp.{fn}({f['text']!r}))")
-    if k == "file":
-        return (f"from dsdobjects.dsdparser import {fn}, {fn_file}; open('/tmp/c.pil','w',newline='').write({f['text']!r}); "
-                f"print({fn_file}('/tmp/c.pil')); print({fn}(open('/tmp/c.pil').read()))")
-    return f"from dsdobjects.dsdparser import {fn}; print({fn}({f['text']!r}))   # expected {f.get('expected')!r}"
+def replay(data):
+    return pegprop.replay(CFG, data)
 
 
-def witness(f):
-    key = {"kind": f["kind"], "text": f.get("text", "")}
-    if f.get("fault"):
-        key["fault"] = f["fault"]
-    return {"key": key, "input": f, "what": f.get("what") or f"{f['kind']}: expected {f.get('expected')!r}, observed {f.get('observed')!r}",
-            "snippet": snippet_for(f)}
-
-
-def replay(data, oracle=ORACLE):
-    f = data.get("input")
-    if not f:
-        print("replay names a broken link only:", json.dumps(data.get("broken_links"))[:2000])
-        return 1
-    case = dict(f)
-    out = run_oracle(oracle, {"cases": [case]})
-    print(json.dumps(out))
-    return 1 if out["failures"] else 0
+PARTIAL = []
